@@ -102,6 +102,25 @@ def programs(tier):
             P.append((f"slice_concat!({ty}, &{arr})", [f"const S: &[&[{ty}]] = &{arr};", f"const K: &[{ty}] = &konst::slice::slice_concat!({ty}, S);", f"const K2: &[{ty}] = &konst::slice::slice_concat!({ty}, &{arr});",
                       f"out.push((\"slice_concat!({ty}, const) {arr}\".to_string(), format!(\"{{:?}}\", K), format!(\"{{:?}}\", S.concat())));",
                       f"out.push((\"slice_concat!({ty}, literal) {arr}\".to_string(), format!(\"{{:?}}\", K2), format!(\"{{:?}}\", S.concat())));"]))
+    # ---- long pieces (copy loops that work in blocks of 4, 8 or 16 bytes only show up with pieces longer than a block)
+    L17 = '"abcdefghijklmnopq"'
+    L33 = '"ñ0123456789ABCDEF€0123456789abcdef"'
+    for lst in [(L17,), (L33, '"a"'), ('""', L17, L33), (L33, L33), ('"a"', L17, '"ñb"', L33)]:
+        arr = "[" + ", ".join(lst) + "]"
+        P.append((f"str_concat!(long pieces {len(lst)})", [f"const K: &str = konst::string::str_concat!(&{arr});", f"let e: [&str; {len(lst)}] = {arr};",
+                  f"out.push(({e3js('str_concat!(long pieces) ' + arr)}.to_string(), K.to_string(), e.concat()));"]))
+        for sep in ['", "', "'€'", L17]:
+            sep_std = sep if sep.startswith('"') else f"{sep}.to_string().as_str()"
+            P.append((f"str_join!(long pieces {len(lst)}, sep {sep[:6]})", [f"const K: &str = konst::string::str_join!({sep}, &{arr});", f"let e: [&str; {len(lst)}] = {arr};",
+                      f"out.push(({e3js('str_join!(' + sep + ', long pieces) ' + arr)}.to_string(), K.to_string(), e.join({sep_std})));"]))
+        P.append((f"string::from_iter!(long pieces {len(lst)})", [f"const A: [&str; {len(lst)}] = {arr};", "const K: &str = konst::string::from_iter!(&A, rev());",
+                  f"out.push(({e3js('from_iter!(long pieces, rev()) ' + arr)}.to_string(), K.to_string(), A.iter().rev().copied().collect::<String>()));"]))
+    for n1, n2 in [(17, 0), (33, 1), (8, 9), (16, 17), (64, 3)]:
+        a1 = "[" + ", ".join(str((i * 7 + 1) % 251) for i in range(n1)) + "]"
+        a2 = "[" + ", ".join(str((i * 5 + 2) % 241) for i in range(n2)) + "]"
+        for ty in ["u8", "u64"]:
+            P.append((f"slice_concat!({ty}, long {n1}+{n2})", [f"const S: &[&[{ty}]] = &[&{a1}, &[], &{a2}];", f"const K: &[{ty}] = &konst::slice::slice_concat!({ty}, S);",
+                      f"out.push((\"slice_concat!({ty}, slices of {n1} and {n2} elements)\".to_string(), format!(\"{{:?}}\", K), format!(\"{{:?}}\", S.concat())));"]))
     # ---- item hygiene: `const` items declared inside a macro body are not hygienic, so a user constant of the same name
     # that appears in an argument expression must still mean the user's constant.  The names are read from the macros'
     # own sources (plus a few generic ones), one program per name and macro.
@@ -115,6 +134,10 @@ def programs(tier):
         P.append((f"slice_concat! with user constants named {nm} (a piece and an array length)", [f"const {nm}: usize = 2;", f"const K_: &[u8] = &konst::slice::slice_concat!(u8, &[&[7u8; {nm}], &[1], &[{nm} as u8]]);",
                   f"out.push((\"slice_concat!(u8, &[&[7; {nm}], &[1], &[{nm} as u8]]) with const {nm}: usize = 2\".to_string(), format!(\"{{:?}}\", K_), format!(\"{{:?}}\", [&[7u8; {nm}][..], &[1], &[{nm} as u8]].concat())));"]))
     return P
+
+
+def e3js(t):
+    return '"' + t.replace("\\", "\\\\").replace('"', '\\"') + '"'
 
 
 def internal_item_names():
